@@ -185,6 +185,42 @@ Proof.
   rewrite nmul_entry. reflexivity.
 Qed.
 
+(** diagonal matrices *)
+Definition mdiag (E : nat -> R) : M := fun i j => if Nat.eqb i j then E i else 0.
+
+Lemma mmul_diag_l E (A : M) i j :
+  (i < D)%nat -> mmul (mdiag E) A i j == E i * A i j.
+Proof.
+  intros Hi. unfold mmul, mdiag.
+  rewrite (@bigsum_single _ _ _ _ _ _ _ _ _ _ _
+             (fun r => (if Nat.eqb i r then E i else 0) * A r j) i).
+  - rewrite Nat.eqb_refl. reflexivity.
+  - apply nodup_range.
+  - now apply in_range.
+  - intros r _ Hne. destruct (Nat.eqb_spec i r). congruence. non_commutative_ring.
+Qed.
+
+Lemma mmul_diag_r E (A : M) i j :
+  (j < D)%nat -> mmul A (mdiag E) i j == A i j * E j.
+Proof.
+  intros Hj. unfold mmul, mdiag.
+  rewrite (@bigsum_single _ _ _ _ _ _ _ _ _ _ _
+             (fun r => A i r * (if Nat.eqb r j then E r else 0)) j).
+  - rewrite Nat.eqb_refl. reflexivity.
+  - apply nodup_range.
+  - now apply in_range.
+  - intros r _ Hne. destruct (Nat.eqb_spec r j). congruence. non_commutative_ring.
+Qed.
+
+(** entries of finite sums of matrices *)
+Lemma bigsum_entry {A} (F : A -> M) l i j :
+  bigsum F l i j == bigsum (fun a => F a i j) l.
+Proof.
+  induction l as [|a l IH]. reflexivity.
+  rewrite !bigsum_cons. change ((F a + bigsum F l) i j) with (F a i j + bigsum F l i j).
+  rewrite IH. reflexivity.
+Qed.
+
 (** * masks: keep the entries (i,j) with [m i j = true] *)
 Definition mmask (m : nat -> nat -> bool) (A : M) : M :=
   fun i j => if m i j then A i j else 0.
